@@ -307,4 +307,8 @@ def run(F, rep):
     from engines import rule_accumulators
     rule_accumulators(F, rep, 'C05.A1', lambda g: g.file.endswith('/analyser.cpp'), 2, 'analyser.cpp', 'e.g. whether some variable of integration is initialised / whether an equation has become external must not depend on which variable comes last')
 
+    # ------------------------------------------------------------------ W: walks over the component tree are complete
+    import recursion as _recw
+    _recw.rule_walkers(F, rep, 'C05.W1', ['analyseComponent', 'analyseComponentVariables'], 2, 'analysing the equations and variables of every component')
+
 
